@@ -215,11 +215,12 @@ fn ack_is_success(data: &Option<Binary>) -> Option<bool> {
 
 impl Ics {
     fn setup(&self, h: &mut Hist, single_channel: bool) -> Option<World> {
-        self.setup_with(h, single_channel, None)
+        self.setup_with(h, single_channel, None, None)
     }
 
-    /// `fixed`: (allow list as (token index, gas limit), default gas limit)
-    fn setup_with(&self, h: &mut Hist, single_channel: bool, fixed: Option<(Vec<(usize, Option<u64>)>, Option<u64>)>) -> Option<World> {
+    /// `fixed`: (allow list as (token index, gas limit), default gas limit); `two_colliding`: force two
+    /// channels whose remote ids are the other channel's local id
+    fn setup_with(&self, h: &mut Hist, single_channel: bool, fixed: Option<(Vec<(usize, Option<u64>)>, Option<u64>)>, two_colliding: Option<bool>) -> Option<World> {
         let pl = pool();
         let mut c = Chain::new(h.rng.range(10, 5000), h.rng.range(1_600_000_000, 1_800_000_000));
         let owner = c.owner.to_string();
@@ -253,11 +254,20 @@ impl Ics {
             _ => return None,
         };
         let our_port = format!("wasm.{ics}");
-        let nch = if single_channel { 1 } else { h.rng.range(2, 3) as usize };
+        let nch = if two_colliding == Some(true) {
+            2
+        } else if single_channel {
+            1
+        } else {
+            h.rng.range(2, 3) as usize
+        };
         let mut channels = vec![];
+        // channel ids are independent counters on the two chains: half of the worlds use remote ids
+        // that collide with (a rotation of) the local ids
+        let collide = two_colliding.unwrap_or_else(|| h.rng.chance(1, 2));
         for i in 0..nch {
             let ours = format!("channel-{}", [1, 2, 7][i]);
-            let theirs = format!("channel-{}", [51, 52, 57][i]);
+            let theirs = if collide { format!("channel-{}", [1, 2, 7][(i + 1) % nch.max(1)]) } else { format!("channel-{}", [51, 52, 57][i]) };
             let r = c.sudo(
                 &ics,
                 &ShimMsg::ChannelConnect { channel_id: ours.clone(), port: our_port.clone(), counterparty_port: CP_PORT.into(), counterparty_channel: theirs.clone(), version: "ics20-1".into(), ordered: false },
@@ -550,7 +560,7 @@ impl Ics {
                         && *amount > 0
                         && v["denom"].as_str() == Some(denom.as_str())
                         && v["sender"].as_str() == Some(sender)
-                        && v["receiver"].as_str().map(|s| s.starts_with("remote")).unwrap_or(false)
+                        && v["receiver"].as_str() == Some(if matches!(op, Op::DirectReceive { .. }) { "remote".to_string() } else { format!("remote-{}", short(sender)) }.as_str())
                         && memo_ok
                         && p.timeout_ns == want_timeout
                         && !p.has_block_timeout;
@@ -1047,7 +1057,11 @@ enum Act {
 
 impl Ics {
     fn play(&self, h: &mut Hist, fixed: (Vec<(usize, Option<u64>)>, Option<u64>), script: Vec<Act>) {
-        let Some(mut w) = self.setup_with(h, true, Some(fixed)) else {
+        self.play_on(h, fixed, script, None)
+    }
+
+    fn play_on(&self, h: &mut Hist, fixed: (Vec<(usize, Option<u64>)>, Option<u64>), script: Vec<Act>, two_colliding: Option<bool>) {
+        let Some(mut w) = self.setup_with(h, true, Some(fixed), two_colliding) else {
             h.out.inconclusive = Some("directed ics20 scenario could not be set up".into());
             return;
         };
@@ -1087,6 +1101,13 @@ impl Ics {
                         None => receiver,
                     };
                     Op::ReturnVoucher { channel, denom, amount, receiver }
+                }
+                Op::Malicious { channel, denom, amount, receiver, src_port, src_channel, garbage } => {
+                    let receiver = match receiver.strip_prefix("@user:") {
+                        Some(i) => w.users[i.parse::<usize>().unwrap()].clone(),
+                        None => receiver,
+                    };
+                    Op::Malicious { channel, denom, amount, receiver, src_port, src_channel, garbage }
                 }
                 o => o,
             };
@@ -1144,6 +1165,31 @@ impl Ics {
                 );
                 true
             }
+            // two channels whose remote ids collide with each other's local ids; a failed payout on one
+            // of them must be rolled back on that same channel
+            ("C11", 1) | ("C12", 9) => {
+                let natc = |c: &str, amount: u128| Op::TransferNative { channel: c.into(), denom: "uatom".into(), amount, extra_coin: false, timeout: None, memo: None };
+                self.play_on(
+                    h,
+                    (vec![(0, None)], None),
+                    vec![
+                        Act::Do(0, natc("channel-1", 100)),
+                        Act::AckOk,
+                        Act::Do(1, natc("channel-2", 60)),
+                        Act::AckOk,
+                        Act::Fault { flaky: false, bank: true },
+                        Act::Relay(Op::ReturnVoucher { channel: "channel-1".into(), denom: "uatom".into(), amount: 100, receiver: "@user:2".into() }),
+                        Act::Fault { flaky: false, bank: false },
+                        // the counterparty of channel-2 now tries to redeem whatever channel-2 reports
+                        Act::Relay(Op::Malicious { channel: "channel-2".into(), denom: "transfer/channel-1/uatom".into(), amount: 160, receiver: "@user:2".into(), src_port: CP_PORT.into(), src_channel: "channel-1".into(), garbage: false }),
+                        Act::Relay(Op::Malicious { channel: "channel-2".into(), denom: "transfer/channel-1/uatom".into(), amount: 61, receiver: "@user:2".into(), src_port: CP_PORT.into(), src_channel: "channel-1".into(), garbage: false }),
+                        Act::Relay(Op::ReturnVoucher { channel: "channel-2".into(), denom: "uatom".into(), amount: 60, receiver: "@user:2".into() }),
+                        Act::Relay(Op::ReturnVoucher { channel: "channel-1".into(), denom: "uatom".into(), amount: 100, receiver: "@user:2".into() }),
+                    ],
+                    Some(true),
+                );
+                true
+            }
             // failing payouts and refunds
             ("C12", 6) | ("C11", 0) => {
                 self.play(
@@ -1184,13 +1230,14 @@ impl Monitor for Ics {
     }
     fn histories(&self, tier: Tier) -> u64 {
         match self.prop {
-            "C12" => tier.pick(160, 36_000),
-            _ => tier.pick(160, 48_000),
+            "C12" => tier.pick(800, 36_000),
+            _ => tier.pick(800, 48_000),
         }
     }
     fn mandatory(&self) -> Vec<&'static str> {
         match self.prop {
             "C11" => vec![
+                "directed_scenarios_completed",
                 "transfers_accepted",
                 "receives_acked_success",
                 "receives_acked_error",
@@ -1204,6 +1251,7 @@ impl Monitor for Ics {
                 "error_acks_checked_for_untouched_escrow",
             ],
             "C12" => vec![
+                "directed_scenarios_completed",
                 "transfers_accepted",
                 "receives_acked_success",
                 "receives_acked_error",
@@ -1219,6 +1267,7 @@ impl Monitor for Ics {
                 "migrations_from_v2",
             ],
             _ => vec![
+                "directed_scenarios_completed",
                 "allows_ok",
                 "allow_raises_ok",
                 "lowering_attempts_rejected",
